@@ -951,7 +951,7 @@ void DecodeMotoDC(tSymbolSize OpSize, Boolean Turn) {
                         WrError(ErrNum_FloatButString);
                         OK = False;
                     }
-                } else if (SetMaxCodeLen(CodeLen + Rep * t.Contents.str.len)) {
+                } else if (SetMaxCodeLen(CodeLen + Rep * WSize * t.Contents.str.len)) {
                     WrError(ErrNum_CodeOverflow);
                     OK = False;
                 } else {
